@@ -18,7 +18,9 @@ CHECKS = {
                 'note (C01_reimport_of_canonical_note), the kern export of that token is that text (string lemmas on replace / '
                 'join, sort identity on sorted lists) and export-import-export = export (C01_note_fixed_point). For rests, chords, '
                 'other tokens and whole documents the fixed point is decided by the correspondence of the scanner / importer / '
-                'exporter model with kernpy and by running the property on kernpy.',
+                'exporter model with kernpy and by running the property on kernpy (signifiers of several characters - &( Ww TT xx yy '
+                '[y ?? - lie outside the scanner model and are round-tripped on kernpy alone). Known findings K11 (a rest inside a chord) '
+                'and K12 (combining signifiers merge in the extended round trip).',
         'note': _COMMON_NOTE + 'The ANTLR grammar is modelled only on the CKL sub-language (DESIGN.md section 3); its signifier tables are validated by an exhaustive character / pair sweep on every run.',
         'technique': 'Coq proof of canonicity (sorted-NoDup uniqueness, sort permutation) + model/impl correspondence of scanner, importer and exporter + property monitors',
     },
